@@ -42,7 +42,7 @@ type c10Case struct {
 
 var c10Thresholds = []float64{0, 1e-9, 0.01, 0.3, 0.5, 0.7, 0.8, 0.99, 0.999999, 1.0}
 
-var c10Hostile = []string{"&#0;", "&amp;amp;", "&", "(", "\x00", "\x80", "\xbf\xbf", "\xf4\x90\x80\x80", "-\n", "-\n-\n-\n-\n", "a-\n-\n-b", "\n\n\n\n", "   ", "\t", "\r\n",
+var c10Hostile = []string{"&#46; x\n&colon; y\n&rpar;\n&#41 z\nword-\n&#46; w\n", "&#46;", "\n&rpar; a", "&#0;", "&amp;amp;", "&", "(", "\x00", "\x80", "\xbf\xbf", "\xf4\x90\x80\x80", "-\n", "-\n-\n-\n-\n", "a-\n-\n-b", "\n\n\n\n", "   ", "\t", "\r\n",
 	"&#x110000;", "&#xD800;", "&lt;&gt;", "((((", "&&&&", "copyright 2020\n", "Copyright (c) [yyyy]\n", "2020-01-01\n", "1. ", "a) ", "1.2.3. ", "·*·*", "©§¤", "‐–—",
 	".,;:!?", "https", "httpshttps", "- - -", "x-\n", "x-\n   \n\n y", "9-\n", "9.\n", "version 2.0", "gnu lesser", "gnu library", "\xe2\x80", "\xc3", "😀", "𝐀"}
 
